@@ -236,6 +236,16 @@ def install(rec, BB, ES, SH, GT, gpyreg):
                                    "local:" + rec.site(), specified())
                 s["refit"] = bool(refit_flag)
                 s["exit_flag"] = float(r[1])
+                # which point was the neighbourhood centred on?  (C15: the current incumbent; the noisy search
+                # step fits a tentative GP around the point it has just evaluated)
+                cp = np.asarray(current_point, dtype=float).ravel()
+                b = rec.bads
+                if b is not None and np.array_equal(cp, np.asarray(b.u, dtype=float).ravel()):
+                    s["centre"] = "inc"
+                elif rec.last_eval_u is not None and np.array_equal(cp, rec.last_eval_u):
+                    s["centre"] = "lasteval"
+                else:
+                    s["centre"] = "other"
                 rec.emit("GPTrainSet", **s)
             except Exception as e:
                 rec.emit("ObserverError", what="local_fit", err=repr(e), tb=traceback.format_exc()[-600:])
